@@ -83,7 +83,12 @@ def gen_case(rng, i):
         ops = [[rng.randrange(len(scripts)), "r" if (rng.random() < p_reset or k == 0) else "s"] for k in range(n_ops)]
         if rng.random() < 0.1:
             ops[0][1] = "s"  # a step before any reset must be refused
-        return {"kind": kind, "scripts": scripts, "allow": rng.random() < 0.6, "ops": ops,
+        reset_kw = rng.random() < 0.3
+        if reset_kw:  # Monitor(reset_keywords=("difficulty",)): every reset passes a value that must show up in the episode entry and the file
+            for o in ops:
+                if o[1] == "r":
+                    o.append(rng.randint(1, 9))
+        return {"kind": kind, "scripts": scripts, "allow": rng.random() < 0.6, "ops": ops, "reset_kw": reset_kw,
                 "info_keywords": rng.choice([[], ["tag"], ["tag", "k1"]]), "id": i}
     if kind == "vecmon":
         k = rng.randint(1, 4)
@@ -93,7 +98,8 @@ def gen_case(rng, i):
         return {"kind": kind, "scripts": scripts, "ops": ops, "info_keywords": rng.choice([[], ["tag"], ["tag", "k1"]]), "id": i}
     k = rng.randint(1, 6)
     scripts = [se.gen_script(rng, max_len=rng.choice([2, 4, 7])) for _ in range(k)]
-    return {"kind": kind, "scripts": scripts, "n": rng.randint(1, 15), "mode": rng.choice([0, 1, 2]), "id": i}
+    return {"kind": kind, "scripts": scripts, "n": rng.randint(1, 15), "mode": rng.choice([0, 1, 2]),
+            "threshold": rng.choice([None, None, rng.randint(-16, 16) / 4.0]), "id": i}
 
 
 # ---------------------------------------------------------------- implementation runs
@@ -110,15 +116,22 @@ def run_monitor(case):
     d = tempfile.mkdtemp(prefix="c18_")
     try:
         kw = tuple(case["info_keywords"])
-        envs = [se.ScriptedEnv(sc, extra_info={"k1": 7 + j}, env_id=j) for j, sc in enumerate(case["scripts"])]
-        mons = [M.Monitor(e, filename=os.path.join(d, f"m{j}"), allow_early_resets=case["allow"], info_keywords=kw) for j, e in enumerate(envs)]
+        rkw = ("difficulty",) if case.get("reset_kw") else ()
+
+        class KwEnv(se.ScriptedEnv):
+            def reset(self, *, seed=None, options=None, **extra):
+                return super().reset(seed=seed, options=options)
+
+        envs = [KwEnv(sc, extra_info={"k1": 7 + j}, env_id=j) for j, sc in enumerate(case["scripts"])]
+        mons = [M.Monitor(e, filename=os.path.join(d, f"m{j}"), allow_early_resets=case["allow"], info_keywords=kw, reset_keywords=rkw) for j, e in enumerate(envs)]
         events = []
-        for w, op in case["ops"]:
+        for o in case["ops"]:
+            w, op = o[0], o[1]
             m = mons[w]
             if op == "r":
                 try:
-                    m.reset()
-                    events.append({"w": w, "op": "r", "out": "ok"})
+                    m.reset(**({"difficulty": o[2]} if rkw else {}))
+                    events.append({"w": w, "op": "r", "out": "ok", "kw": o[2] if rkw else None})
                 except RuntimeError:
                     events.append({"w": w, "op": "r", "out": "err"})
             else:
@@ -130,10 +143,10 @@ def run_monitor(case):
                 except RuntimeError:
                     events.append({"w": w, "op": "s", "out": "err"})
         stats = [{"returns": [float(x) for x in m.get_episode_rewards()], "lengths": [int(x) for x in m.get_episode_lengths()],
-                  "total_steps": int(m.get_total_steps()), "env_log": [e[0] for e in envs[j].log]} for j, m in enumerate(mons)]
+                  "times": [float(x) for x in m.get_episode_times()], "total_steps": int(m.get_total_steps()), "env_log": [e[0] for e in envs[j].log]} for j, m in enumerate(mons)]
         for m in mons:
             m.close()
-        rows = _rows(M.load_results(d), kw)
+        rows = _rows(M.load_results(d), kw + rkw)
         return {"events": events, "stats": stats, "rows": rows}
     finally:
         shutil.rmtree(d, ignore_errors=True)
@@ -195,8 +208,11 @@ def run_eval(case):
             return M.Monitor(e) if mode == 1 else e
         return f
 
-    venv = DummyVecEnv([mk(j, sc) for j, sc in enumerate(case["scripts"])])
-    env = VM.VecMonitor(venv) if mode == 2 else venv
+    def build():
+        venv = DummyVecEnv([mk(j, sc) for j, sc in enumerate(case["scripts"])])
+        return VM.VecMonitor(venv) if mode == 2 else venv
+
+    env = build()
     calls = []
 
     def cb(loc, glob):
@@ -211,8 +227,24 @@ def run_eval(case):
         except _Runaway:
             return {"runaway": cap, "steps": cap}
     steps = sum(1 for e in raw[0].log if e[0] == "step")
-    return {"rs": [float(x) for x in rs], "ls": [int(x) for x in ls], "calls": calls, "steps": steps,
-            "r_types_ok": all(isinstance(x, (float, np.floating)) for x in rs)}
+    out = {"rs": [float(x) for x in rs], "ls": [int(x) for x in ls], "calls": calls, "steps": steps,
+           "r_types_ok": all(isinstance(x, (float, np.floating)) for x in rs)}
+    # ---- the summary form: mean / std, the warning without a monitor, the reward_threshold assertion
+    with warnings.catch_warnings(record=True) as wlist:
+        warnings.simplefilter("always")
+        mean, std = evaluate_policy(_Policy(np, k, cap), build(), n_eval_episodes=case["n"], return_episode_rewards=False, warn=True)
+    out["mean"], out["std"] = float(mean), float(std)
+    out["warned"] = any(issubclass(w.category, UserWarning) and "Monitor" in str(w.message) for w in wlist)
+    thr = case.get("threshold")
+    if thr is not None:
+        try:
+            with warnings.catch_warnings():
+                warnings.simplefilter("ignore")
+                evaluate_policy(_Policy(np, k, cap), build(), n_eval_episodes=case["n"], reward_threshold=thr, warn=False)
+            out["threshold_raised"] = False
+        except AssertionError:
+            out["threshold_raised"] = True
+    return out
 
 
 RUN = {"monitor": run_monitor, "vecmon": run_vecmon, "eval": run_eval}
@@ -226,7 +258,7 @@ def model_exprs(case, impl):
     if case["kind"] == "monitor":
         ex = []
         for w, sc in enumerate(case["scripts"]):
-            ops = coq_list(["UReset" if op == "r" else "UStep" for ww, op in case["ops"] if ww == w])
+            ops = coq_list(["UReset" if o[1] == "r" else "UStep" for o in case["ops"] if o[0] == w])
             ex.append(f"let '(s, outs) := mon_env_run {coq_bool(case['allow'])} {coq_script(sc)} cursor0 m0 {ops} in (outs, m_rows s, m_total s)")
         return ex
     if case["kind"] == "vecmon":
@@ -260,6 +292,8 @@ def compare_monitor(case, impl, mv):
     cur = {w: None for w in range(len(case["scripts"]))}      # None = not reset since construction / since the episode ended
     expected_rows = []
     per_mon_eps = {w: [] for w in cur}
+    last_kw = {}
+    rkw = bool(case.get("reset_kw"))
     for n, ev in enumerate(impl["events"]):
         w = ev["w"]
         if ev["op"] == "r":
@@ -271,6 +305,7 @@ def compare_monitor(case, impl, mv):
                 if not case["allow"] and running:
                     probs.append(("oracle-monitor-early-reset-accepted", f"op {n}: early reset accepted with allow_early_resets=False"))
                 cur[w] = []
+                last_kw[w] = ev.get("kw")
         else:
             if ev["out"] == "err":
                 if cur[w] is not None:
@@ -292,7 +327,9 @@ def compare_monitor(case, impl, mv):
                     for key in kw:
                         if ep.get(key) != ev["info_" + key]:
                             probs.append(("oracle-monitor-info-keyword", f"op {n}: episode[{key}]={ep.get(key)} but info[{key}]={ev['info_' + key]}"))
-                expected_rows.append([want["r"], want["l"]] + [ev["info_" + key] for key in kw])
+                    if rkw and ep.get("difficulty") != last_kw.get(w):
+                        probs.append(("oracle-monitor-reset-keyword", f"op {n}: episode[difficulty]={ep.get('difficulty')} but the last reset passed {last_kw.get(w)}"))
+                expected_rows.append([want["r"], want["l"]] + [ev["info_" + key] for key in kw] + ([last_kw.get(w)] if rkw else []))
                 per_mon_eps[w].append((want["r"], want["l"]))
                 cur[w] = None
             elif ev["ep"] is not None:
@@ -302,6 +339,9 @@ def compare_monitor(case, impl, mv):
     for w, st in enumerate(impl["stats"]):
         if list(zip(st["returns"], st["lengths"])) != per_mon_eps[w]:
             probs.append(("oracle-monitor-getters", f"monitor {w}: get_episode_rewards/lengths {list(zip(st['returns'], st['lengths']))} != {per_mon_eps[w]}"))
+        tms = st["times"]
+        if len(tms) != len(per_mon_eps[w]) or any(b <= a for a, b in zip(tms, tms[1:])) or any(t <= 0 for t in tms):
+            probs.append(("oracle-monitor-episode-times", f"monitor {w}: get_episode_times {tms} is not one increasing positive time per episode"))
     # ---- model vs impl
     for w in range(len(case["scripts"])):
         outs, rows, total = mv[w]
@@ -398,6 +438,18 @@ def compare_eval(case, impl, mv):
             truth = [(float(a), b) for a, b in script_episodes(case["scripts"][i], len(mine))]
             if mine != truth:
                 probs.append(("oracle-evaluate-episode-values", f"env {i}: returned (4*return, length) {mine}, its first {len(mine)} episodes are {truth}"))
+    # summary form: mean and (population) standard deviation of exactly those returns; warning iff no monitor; threshold assertion
+    if "mean" in impl and len(rs) == n:
+        from fractions import Fraction as Fr
+        m = sum(Fr(x) for x in rs) / n
+        var = sum((Fr(x) - m) ** 2 for x in rs) / n
+        tol = 1e-6 if case["mode"] == 2 else 1e-9   # VecMonitor reports float32 returns: np.mean / np.std then work in float32
+        if abs(impl["mean"] - float(m)) > tol * max(1.0, abs(float(m))) or abs(impl["std"] - float(var) ** 0.5) > tol * max(1.0, float(var) ** 0.5):
+            probs.append(("oracle-evaluate-mean-std", f"mean/std {impl['mean']!r}/{impl['std']!r}, the {n} episode returns have {float(m)!r}/{float(var) ** 0.5!r}"))
+        if impl["warned"] != (case["mode"] == 0):
+            probs.append(("oracle-evaluate-monitor-warning", f"warning about the missing Monitor wrapper issued={impl['warned']} with monitor mode {case['mode']}"))
+        if "threshold_raised" in impl and impl["threshold_raised"] != (not float(m) > case["threshold"]):
+            probs.append(("oracle-evaluate-reward-threshold", f"reward_threshold={case['threshold']} mean={float(m)}: AssertionError raised={impl['threshold_raised']}"))
     # ---- model vs impl
     eps, tags, halted = mv[0]
     if not halted:
